@@ -6,11 +6,13 @@ res={}
 rp=os.path.join(ROOT,'seeded','RESULTS.md')
 if os.path.exists(rp):
     for l in open(rp):
-        m=re.match(r'\| (C\d\d-\d+) \| (C\d\d) \| (\S+) \| (.*) \|$',l.strip())
-        if m: res[m.group(1)]=(m.group(3),m.group(4))
+        m=re.match(r'\| (C\d\d-\d+) \| (C\d\d) \| (\S+) \| (\d*) \| (.*) \|$',l.strip())
+        if m: res[m.group(1)]=(m.group(3),m.group(5),m.group(4))
 EXTRA={
- 'C01-4':'not caught by C01 (exit 0): the change is only visible through `TngComplex::connect` with a degree-shifted right operand, an internal API that no library entry point and none of the property\'s observation points uses (`KhHomology::new`, `KhComplexBigraded`, `KhComplex::d_matrix` always pass an unshifted single crossing); recorded as outside the observable surface of C01',
- 'C08-2':'same source change as C11-1 (a race in the parallel pivot search); the C08 workload almost never reaches the conflict path, C11 catches it (exit 1 under Barrier/Delay/Stagger schedules)',
+ 'C01-4':'first missed (the change is only visible through `TngComplex::connect` with a degree-shifted right operand, which the builder never produces); caught since C01 has the composition route',
+ 'C08-2':'same source change as C11-1; first caught by C11 only, by C08 as well since the wide two-term complexes were added',
+ 'C18-4':'same root cause as C04-1 (proposed independently)',
+ 'C02-5':'same mechanism as C04-3 (proposed independently)',
 }
 rows=[]
 for d in sorted(glob.glob(os.path.join(ROOT,'seeded','C*-*')), key=lambda x:(os.path.basename(x)[:3], int(os.path.basename(x).split('-')[1]))):
@@ -19,8 +21,9 @@ for d in sorted(glob.glob(os.path.join(ROOT,'seeded','C*-*')), key=lambda x:(os.
     needs=re.sub(r'\s+',' ',m.get('needs','')).replace('|','/')
     if len(summ)>260: summ=summ[:257]+'...'
     if len(needs)>260: needs=needs[:257]+'...'
-    r=res.get(s,('?',''))
+    r=res.get(s,('?','',''))
     verdict={'1':'caught','0':'NOT caught','2':'inconclusive'}.get(r[0],r[0])
+    if r[0]=='1' and len(r)>2 and r[2]: verdict+=f" after {r[2]} cases"
     note=EXTRA.get(s,'')
     rows.append(f"| {s} | {summ} | {needs} | {verdict}{(' — '+note) if note else ''} |")
 txt='''## 13. Seeded changes: what they need to manifest and which checks catch them
@@ -31,23 +34,29 @@ break the property while compiling and passing all 610 repository tests, with a
 demonstration.  Every change below was confirmed independently with
 `tools/seedverify.sh` in a scratch worktree (patch applies, workspace compiles,
 610/610 tests pass with it, the demonstration fails with it and passes without
-it) before being kept under `seeded/<ID>-<k>/`.  Round 2 (entries `-3`, `-4`)
-asked for root causes different from round 1.  The last column is the outcome of
-`tools/seedmatrix.sh`: the patch is applied to `/repo`, `./check <ID> quick` of
-*its own property* is run, and the patch is reverted (full first-failure lines
-are in `seeded/RESULTS.md`).  Several changes are also caught by checks of
-other properties (e.g. C09-2 and C07-2 by C07 and C09, C04-1/C04-2 by C18,
-C12-3 and C08-1 by C12, C02-4 by C18).
+it) before being kept under `seeded/<ID>-<k>/`.  Round 1 gave two changes per
+property (`-1`, `-2`), rounds 2 and 3 (higher numbers, `"round"` in `meta.json`)
+asked for root causes different from everything proposed before for that
+property.  The last column is the outcome of `tools/seedmatrix.sh` with the
+final checks: on a scratch git worktree of the repository and a scratch copy of
+`/verif` pointing at it (never `/repo` itself), the patch is applied,
+`./check <ID> quick` of *its own property* is run with seed 0 and with the saved
+regression inputs disabled (so only the generated search counts), and the patch is
+reverted; the number is the count of generated cases evaluated when the first
+failure was found (full first-failure lines are in `seeded/RESULTS.md`).
+Several changes are also caught by checks of other properties (e.g. C09-2 and
+C07-2 by C07 and C09, C04-1/C04-2 by C18, C12-3 and C08-1 by C12, C02-4 by C18).
 
 Checks that missed a seeded change when it first arrived, and what was
-strengthened: C04 (resolved crossings listed before real ones: bases with a
-crossingless unknot / unlink first were added), C05 (constants over larger
-diagrams, and acceptance of reduced with t != 0), C02 (the library's own
-`Braid::closure` before and after braid moves), C16 (`map_coeffs` /
-`into_map_coeffs` / `map_gens`), C08 (`reduced()` twice), C03 (signature of the
-known finding).  After these, 59 of the 61 seeded changes are caught by the
-quick check of their own property; the two exceptions are explained in the
-table.
+strengthened (each is described in sec. 10): C04 (resolved crossings listed before
+real ones), C05 (constants over larger diagrams; reduced with t != 0; constants
+built three times because the manifestation of C05-3 depends on a per-instance
+hash order), C02 (the library's own `Braid::closure`), C16 (`map_coeffs` /
+`map_gens`), C08 (`reduced()` twice; wide two-term complexes for C08-2), C03
+(signature of the known finding), C07 (`vectorize_euc` on boundaries, C07-4),
+C11 (huge sparse matrices, C11-6), C14 (`Construct` step, C14-5), C06 (knot
+diagrams with a smoothed crossing, C06-6), C12 (tree-shaped decompositions on >= 32
+columns, C12-7), C01 (composition route, C01-4).
 
 | seed | change | needs | quick check of its property |
 |------|--------|-------|-----------------------------|
